@@ -39,6 +39,7 @@ def position_variables(ctx):
         raise AnalysisError('Code.CCodeWriter.put_add_traceback vanished')
     owner, fn = found
     res = Res(ctx, owner, fn)
+    res.env = _unpack_env(fn)          # also follows `a, b, c = <tuple>` bindings
     out = {}
     for n in walk_no_nested(fn):
         ec = emit_call(n)
@@ -334,4 +335,943 @@ def rule_pospair(ctx):
     p2, _ = check_calls(_C, rec, _C.methods['gen'])
     r.positive_control(len(rec['save']) == 2 and not check_class(_C, rec, posvars)[0] and any(':restore-arg:' in k for k, _, _ in p2),
                        'restore argument conditioned on label_used while the save is unconditional')
+    return r
+
+
+# ======================================================================================================================
+#  fourth round
+# ======================================================================================================================
+#  C44-ERRPOS   the error position travels  emission site -> __PYX_ERR / __PYX_MARK_ERR_POS -> position variables ->
+#               __Pyx_AddTraceback(...) -> C parameters -> CPython's code/frame constructors.  Every hop is checked for
+#               ROLE agreement (file / source line / C line); the roles are derived at each hop from what the value is
+#               used for, never from its name:
+#                 macro:      variable assigned `table[param]` = file, assigned a bare parameter = line, assigned __LINE__ = C line
+#                 emission:   the argument in the macro's file-parameter position must be lookup_filename(pos[FILE]) and the one in
+#                             the line-parameter position pos[LINE] of the same pos (FILE/LINE = the components the scanner puts
+#                             the source and the line number in)
+#                 C side:     a parameter handed to __Pyx_CLineForTraceback is the C line; one handed to PyCode_NewEmpty's
+#                             `firstlineno` / __Pyx_PyFrame_SetLineNumber / stored as "co_firstlineno" is the source line; etc.
+#  C44-TBKEY    the code-object cache of __Pyx_AddTraceback is read and written under the same key
+#  C44-FIRST    line table base: driver feeds the encoder's result back, starts from its first-line parameter; the code object is
+#               created with the same first line as the table was built with; that line is pos[LINE]; the table string is
+#               turned into bytes with a codec that maps chr(n) to the byte n
+#  C44-ORDER    the position list handed to the encoder is ascending and offsets number the same list in the same order
+from ..engine import cutil as _cutil
+
+PYX_MACROS = ('__PYX_ERR', '__PYX_MARK_ERR_POS')
+
+
+def scanner_pos_indices(ctx):
+    """(FILE index, LINE index) of a node position: where the Plex scanner puts its `name` and its line counter"""
+    tree = ctx.parse('Cython/Plex/Scanners.py')
+    for n in ast.walk(tree):
+        if isinstance(n, ast.Assign) and isinstance(n.value, ast.Tuple) and any(is_self_attr(t) and 'position' in t.attr for t in n.targets) and len(n.value.elts) == 3:
+            srcs = [ast.unparse(e) for e in n.value.elts]
+            if 'self.name' in srcs and 'self.cur_line' in srcs:
+                return srcs.index('self.name'), srcs.index('self.cur_line')
+    raise AnalysisError('Plex.Scanners: the (name, line, column) position tuple built by the scanner was not found')
+
+
+def _unpack_env(fn):
+    """local_assigns plus names bound by `a, b = <tuple display or name of one>`"""
+    env = local_assigns(fn)
+    for n in walk_no_nested(fn):
+        if isinstance(n, ast.Assign) and len(n.targets) == 1 and isinstance(n.targets[0], ast.Tuple):
+            v = deref(n.value, env)
+            if isinstance(v, ast.Tuple) and len(v.elts) == len(n.targets[0].elts):
+                for t, e in zip(n.targets[0].elts, v.elts):
+                    if isinstance(t, ast.Name):
+                        env.setdefault(t.id, []).append(e)
+    return env
+
+
+def full_text(res, node, env, depth=0):
+    """emitted text of a string expression with local names followed and nested templates substituted -> (text, [placeholder exprs]) or None"""
+    if depth > 6:
+        return None
+    node = deref(node, env)
+    if isinstance(node, ast.Constant) and isinstance(node.value, str):
+        return node.value.replace(PH, '?'), []
+    if isinstance(node, ast.JoinedStr):
+        out, ph = '', []
+        for v in node.values:
+            if isinstance(v, ast.Constant):
+                out += str(v.value).replace(PH, '?')
+                continue
+            a = res.atom(v.value) if v.conversion == -1 else None
+            if a is not None and v.format_spec is None:
+                out += a
+                continue
+            sub = full_text(res, v.value, env, depth + 1) if v.format_spec is None and v.conversion == -1 else None
+            if sub is not None and not isinstance(deref(v.value, env), ast.Constant):
+                out += sub[0]
+                ph += sub[1]
+            else:
+                out += PH
+                ph.append(deref(v.value, env))
+        return out, ph
+    if isinstance(node, ast.BinOp) and isinstance(node.op, ast.Add):
+        a, b = full_text(res, node.left, env, depth + 1), full_text(res, node.right, env, depth + 1)
+        return None if a is None or b is None else (a[0] + b[0], a[1] + b[1])
+    if isinstance(node, ast.Call) and isinstance(node.func, ast.Attribute) and node.func.attr == 'format' and not node.keywords:
+        # "...{}...{}".format(a, b) with automatic numbering (or {0} {1} in order)
+        left = full_text(res, node.func.value, env, depth + 1)
+        if left is None or left[1]:
+            return None
+        fields = list(re.finditer(r'\{(\d*)\}', left[0]))
+        if len(fields) != len(node.args) or any(f.group(1) not in ('', str(i)) for i, f in enumerate(fields)) or re.search(r'\{[^}\d]', left[0]):
+            return None
+        out, ph, pos = '', [], 0
+        for f, a in zip(fields, node.args):
+            out += left[0][pos:f.start()]
+            pos = f.end()
+            at = res.atom(a)
+            if at is not None:
+                out += at
+            else:
+                out += PH
+                ph.append(deref(a, env))
+        return out + left[0][pos:], ph
+    if isinstance(node, ast.BinOp) and isinstance(node.op, ast.Mod):
+        left = full_text(res, node.left, env, depth + 1)
+        if left is None or left[1]:
+            return None
+        fmt = left[0]
+        right = deref(node.right, env)
+        specs = [m for m in res.SPEC.finditer(fmt) if m.group(1) != '%']
+        args = list(right.elts) if isinstance(right, ast.Tuple) else (res.seq(right) if len(specs) != 1 else None) or [right]
+        if len(args) != len(specs):
+            return None
+        out, ph, pos, ai = '', [], 0, 0
+        for m in res.SPEC.finditer(fmt):
+            out += fmt[pos:m.start()]
+            pos = m.end()
+            if m.group(1) == '%':
+                out += '%'
+                continue
+            a = res.atom(args[ai])
+            sub = None if a is not None else full_text(res, args[ai], env, depth + 1)
+            if a is not None:
+                out += a
+            elif sub is not None and isinstance(deref(args[ai], env), (ast.JoinedStr, ast.BinOp)):
+                out += sub[0]
+                ph += sub[1]
+            else:
+                out += PH
+                ph.append(deref(args[ai], env))
+            ai += 1
+        return out + fmt[pos:], ph
+    return None
+
+
+def emitted_texts(ctx, cls, fn):
+    """[(node, text, placeholders)] for every string the method emits or returns that the evaluator can resolve"""
+    res = Res(ctx, cls, fn)
+    env = _unpack_env(fn)
+    out = []
+    for n in walk_no_nested(fn):
+        exprs = []
+        ec = emit_call(n)
+        if ec is not None:
+            exprs.append(ec[1])
+        if isinstance(n, ast.Return) and n.value is not None:
+            exprs.append(n.value)
+        if isinstance(n, ast.Call) and isinstance(n.func, ast.Attribute) and n.func.attr in ('_write_lines', 'write') and n.args:
+            exprs.append(n.args[0])
+        for e in exprs:
+            t = full_text(res, e, env)
+            if t is not None:
+                out.append((n, t[0], t[1]))
+    out.sort(key=lambda x: (x[0].lineno, x[0].col_offset))
+    return out
+
+
+def _macro_defs(ctx):
+    """{macro name: [(params, body text, line)]} for the position macros the module preamble defines"""
+    ix = ctx.index
+    out = {}
+    mod = ix.mod('ModuleNode')
+    for c in mod.classes.values():
+        for fn in c.methods.values():
+            if not any(isinstance(k, ast.Constant) and isinstance(k.value, str) and '#define __PYX_' in k.value for k in ast.walk(fn)):
+                continue
+            texts = emitted_texts(ctx, c, fn)
+            joined, pending = [], None
+            for n, text, ph in texts:
+                # a definition continued with a backslash is emitted as two putln calls
+                if pending is not None:
+                    text = pending + ' ' + text
+                    pending = None
+                if text.rstrip().endswith('\\'):
+                    pending = text.rstrip()[:-1]
+                    continue
+                joined.append((n, text, ph))
+            for n, text, ph in joined:
+                m = re.match(r'\s*#define\s+(__PYX_\w+)\(([^)]*)\)\s*(.*)$', text, re.S)
+                if m and m.group(1) in PYX_MACROS:
+                    if ph:
+                        raise AnalysisError('ModuleNode: the definition of %s contains a part that cannot be resolved: %s' % (m.group(1), node_src(ph[0])))
+                    out.setdefault(m.group(1), []).append(([p.strip() for p in m.group(2).split(',')], m.group(3), n.lineno))
+    if '__PYX_MARK_ERR_POS' not in out:
+        raise AnalysisError('ModuleNode: the definition of __PYX_MARK_ERR_POS was not found in the emitted preamble')
+    return out
+
+
+def classify_macro_body(params, body, line_macro):
+    """{C variable: (role, macro parameter, table)} for the assignments of a position macro: `v = table[param]` file, `v = param` line, `v = __LINE__` C line"""
+    roles = {}
+    for stmt in re.split(r'[;{}]', body):
+        m = re.match(r'^\s*([A-Za-z_]\w*)\s*=\s*(.+?)\s*$', stmt)
+        if not m:
+            continue
+        lhs, rhs = m.groups()
+        mi = re.match(r'^([A-Za-z_]\w*)\s*\[\s*([A-Za-z_]\w*)\s*\]$', rhs)
+        if mi and mi.group(2) in params:
+            roles[lhs] = ('file', mi.group(2), mi.group(1))
+        elif rhs in params:
+            roles[lhs] = ('line', rhs, None)
+        elif rhs == line_macro:
+            roles[lhs] = ('cline', None, None)
+        else:
+            roles[lhs] = ('?', rhs, None)
+    return roles
+
+
+def macro_roles(ctx, posvars):
+    """-> (roles per variant [{cname: (role, param)}], forward {outer macro: [inner param index or None per outer param]}, problems)"""
+    naming = None
+    defs = _macro_defs(ctx)
+    from .pC37 import naming_values
+    naming = naming_values(ctx)
+    line_macro = naming.get('line_c_macro', '__LINE__')
+    table = naming.get('filetable_cname')
+    variants, problems = [], []
+    for params, body, line in defs['__PYX_MARK_ERR_POS']:
+        variants.append((params, classify_macro_body(params, body, line_macro), line))
+    forward = {}
+    for params, body, line in defs.get('__PYX_ERR', []):
+        m = re.search(r'__PYX_MARK_ERR_POS\(([^)]*)\)', body)
+        if not m:
+            problems.append(('__PYX_ERR:forward', line, '__PYX_ERR no longer expands to __PYX_MARK_ERR_POS(...)'))
+            continue
+        inner = [a.strip() for a in m.group(1).split(',')]
+        forward['__PYX_ERR'] = [inner.index(p) if p in inner else None for p in params]
+        g = re.search(r'goto\s+(\w+)', body)
+        if not g or g.group(1) not in params:
+            problems.append(('__PYX_ERR:goto', line, '__PYX_ERR does not jump to its label parameter'))
+    return variants, forward, table, problems
+
+
+# ---------------------------------------------------------------------------------------------------------------- C side
+LINE_SINKS = {('__Pyx_PyFrame_SetLineNumber', 1): 'line', ('__Pyx_CLineForTraceback', 1): 'cline', ('Py_CompileString', 1): 'file'}
+NAMED_SINKS = {'PyCode_NewEmpty': {'firstlineno': 'line', 'filename': 'file', 'funcname': 'func'}}
+DICT_KEY_SINKS = {'co_firstlineno': 'line', 'co_name': 'func', 'co_filename': 'file'}
+CONVERSIONS = ('PyLong_FromLong', 'PyLong_FromSsize_t', 'PyUnicode_FromString', 'PyInt_FromLong')
+
+
+def _c_calls(body):
+    """[(callee, [arg texts], offset)] of the calls in a C function body (comments stripped)"""
+    out = []
+    for m in re.finditer(r'(\$?[A-Za-z_]\w*)\s*\(', body):
+        name = m.group(1)
+        if name in ('if', 'while', 'for', 'switch', 'return', 'sizeof', 'unlikely', 'likely', 'defined'):
+            continue
+        lp = m.end() - 1
+        rp = _cutil.match_paren(body, lp)
+        if rp < 0:
+            continue
+        out.append((name, [a.strip() for a in _cutil.split_args(body[lp + 1:rp])], m.start()))
+    return out
+
+
+def c_param_roles(ctx, fname, section_funcs, depth=0, _seen=None):
+    """per definition variant of the C function: [{param index: set of roles}]"""
+    _seen = _seen or set()
+    api = None
+    out = []
+    for d in [x for x in ctx.cat.decls.get(fname, []) if x.kind == 'func']:
+        body = _cutil.strip_c_comments(d.body or '')
+        pnames = [re.findall(r'[A-Za-z_]\w*', p)[-1] if re.findall(r'[A-Za-z_]\w*', p) else '' for p in d.params]
+        alias = {p: p for p in pnames}
+        for m in re.finditer(r'\b([A-Za-z_]\w*)\s*=\s*(%s)\s*\(\s*([A-Za-z_]\w*)\s*\)' % '|'.join(CONVERSIONS), body):
+            if m.group(3) in alias:
+                alias[m.group(1)] = alias[m.group(3)]
+        roles = {i: set() for i in range(len(pnames))}
+
+        def note(arg, role):
+            a = re.sub(r'^\(\s*[\w\s\*]+\)\s*', '', arg).strip()
+            if a in alias and alias[a] in pnames:
+                roles[pnames.index(alias[a])].add(role)
+        for callee, args, off in _c_calls(body):
+            for (cn, ai), role in LINE_SINKS.items():
+                if callee == cn and ai < len(args):
+                    note(args[ai], role)
+            if callee in NAMED_SINKS:
+                if api is None:
+                    from ..engine.tables import cpython_api
+                    api = cpython_api()
+                proto = api.get(callee)
+                if proto is None:
+                    raise AnalysisError('CPython header prototype of %s not found' % callee)
+                for i, ptxt in enumerate(proto[1]):
+                    ids = re.findall(r'[A-Za-z_]\w*', ptxt)
+                    if ids and ids[-1] in NAMED_SINKS[callee] and i < len(args):
+                        note(args[i], NAMED_SINKS[callee][ids[-1]])
+            if callee in ('PyDict_SetItemString', 'PyObject_SetAttrString') and len(args) == 3:
+                k = args[1].strip('"')
+                if k in DICT_KEY_SINKS:
+                    note(args[2], DICT_KEY_SINKS[k])
+            if callee in section_funcs and callee != fname and callee not in _seen and depth < 3:
+                subs = c_param_roles(ctx, callee, section_funcs, depth + 1, _seen | {fname})
+                for sub, _d in subs:
+                    for i, rs in sub.items():
+                        if i < len(args):
+                            for role in rs:
+                                note(args[i], role)
+        out.append((roles, d))
+    return out
+
+
+def _python_arg_role(e, cname_roles, naming):
+    """roles of a value handed to the traceback helper: {role} for a position variable, {'none'} for a constant, set() unknown"""
+    if isinstance(e, ast.IfExp):
+        return _python_arg_role(e.body, cname_roles, naming) | _python_arg_role(e.orelse, cname_roles, naming)
+    if isinstance(e, ast.Constant):
+        return {'none'}
+    if isinstance(e, ast.Attribute) and isinstance(e.value, ast.Name) and e.value.id == 'Naming':
+        c = naming.get(e.attr)
+        return set(cname_roles.get(c, ()))
+    return set()
+
+
+def rule_errpos(ctx):
+    r = Rule('C44-ERRPOS', 'role agreement of the error position along emission site -> __PYX_ERR/__PYX_MARK_ERR_POS -> position variables -> __Pyx_AddTraceback arguments -> C '
+             'parameters -> CPython constructors: the file-table index, the source line and the C line each stay in their own lane (roles derived from use at every hop)', floor=16)
+    from .pC37 import naming_values
+    naming = naming_values(ctx)
+    posvars = position_variables(ctx)
+    FILE_I, LINE_I = scanner_pos_indices(ctx)
+    variants, forward, table, problems = macro_roles(ctx, posvars)
+    mrel = 'Cython/Compiler/ModuleNode.py'
+    for key, line, msg in problems:
+        r.violate('ModuleNode.' + key, mrel, line, msg)
+    pos_cnames = set(posvars.values())
+    cname_roles = {}
+    pcr = classify_macro_body(['f_index', 'lineno'], '{ fn = tab[lineno]; (void) fn; ln = f_index; cl = __LINE__; }', '__LINE__')
+    r.positive_control(pcr.get('fn', ())[:2] == ('file', 'lineno') and pcr.get('ln', ())[:2] == ('line', 'f_index') and pcr.get('cl', ())[0] == 'cline',
+                       'macro that indexes the file table with its line parameter')
+    # ---- A. the macro writes every variable the traceback reads, each from the right source
+    file_param = line_param = None
+    mparams = variants[0][0]
+    for vi, (params, roles, line) in enumerate(variants):
+        has_cline = any(v[0] == 'cline' for v in roles.values())
+        tag = 'cline' if has_cline else 'plain'
+        for role in ('file', 'line'):
+            hits = [c for c, v in roles.items() if v[0] == role and c in pos_cnames]
+            key = 'ModuleNode.__PYX_MARK_ERR_POS:%s:%s' % (tag, role)
+            r.inst(key, sample='variant %s: %s <- %s' % (tag, hits, role))
+            if len(hits) != 1:
+                r.violate(key, mrel, line,
+                          'the %s variant of __PYX_MARK_ERR_POS assigns %s of the variables __Pyx_AddTraceback reads (%s) from %s: the traceback entry carries a stale or '
+                          'zero %s' % (tag, 'none' if not hits else 'several (%s)' % hits, sorted(pos_cnames), 'the file table indexed by a macro parameter' if role == 'file' else 'a macro parameter',
+                                       'file name' if role == 'file' else 'line number'))
+            for c in hits:
+                cname_roles.setdefault(c, set()).add(role)
+                if role == 'file':
+                    if roles[c][2] != table:
+                        r.violate(key + ':table', mrel, line, '__PYX_MARK_ERR_POS takes the file name from %s[...] instead of the module file table %s' % (roles[c][2], table))
+                    if file_param not in (None, params.index(roles[c][1])):
+                        r.violate(key + ':param', mrel, line, 'the variants of __PYX_MARK_ERR_POS index the file table with different parameters')
+                    file_param = params.index(roles[c][1])
+                else:
+                    if line_param not in (None, params.index(roles[c][1])):
+                        r.violate(key + ':param', mrel, line, 'the variants of __PYX_MARK_ERR_POS take the line from different parameters')
+                    line_param = params.index(roles[c][1])
+        for c, v in roles.items():
+            if v[0] == 'cline' and c in pos_cnames:
+                cname_roles.setdefault(c, set()).add('cline')
+    if not any(any(v[0] == 'cline' for v in roles.values()) for _, roles, _ in variants):
+        r.info('no variant of __PYX_MARK_ERR_POS records __LINE__')
+    if file_param is not None and file_param == line_param:
+        r.violate('ModuleNode.__PYX_MARK_ERR_POS:params', mrel, variants[0][2], '__PYX_MARK_ERR_POS uses one parameter both as file-table index and as line number')
+    ambiguous = sorted(c for c, rs in cname_roles.items() if len(rs) > 1)
+    r.inst('ModuleNode.__PYX_MARK_ERR_POS:one-role-per-variable', sample=str({c: sorted(rs) for c, rs in cname_roles.items()}))
+    if ambiguous:
+        r.violate('ModuleNode.__PYX_MARK_ERR_POS:one-role-per-variable', mrel, variants[0][2],
+                  'the variants of __PYX_MARK_ERR_POS use %s in different roles (%s): the traceback shows the C line number as source line (or vice versa) depending on '
+                  'CYTHON_CLINE_IN_TRACEBACK' % (ambiguous, {c: sorted(cname_roles[c]) for c in ambiguous}))
+    # ---- B. emission sites
+    ix = ctx.index
+    nsites = 0
+    if file_param is not None and line_param is not None:
+        for ms in MODULES:
+            try:
+                m = ix.mod(ms)
+            except AnalysisError:
+                continue
+            if not re.search(r'__PYX_(ERR|MARK_ERR_POS)\(', ctx.read(m.rel)):
+                continue
+            for c in m.classes.values():
+                for fn in c.methods.values():
+                    if not any(isinstance(k, ast.Constant) and isinstance(k.value, str) and re.search(r'__PYX_(ERR|MARK_ERR_POS)\(', k.value) and '#define' not in k.value
+                               for k in ast.walk(fn)):
+                        continue
+                    if any(isinstance(k, ast.Constant) and isinstance(k.value, str) and '#define __PYX_' in k.value for k in ast.walk(fn)):
+                        continue        # the method that writes the definitions (analysed above)
+                    env = _unpack_env(fn)
+                    for n, text, ph in emitted_texts(ctx, c, fn):
+                        for mm in re.finditer(r'(__PYX_ERR|__PYX_MARK_ERR_POS)\(([^()]*)\)', text):
+                            macro, argtext = mm.group(1), mm.group(2)
+                            args = [a.strip() for a in argtext.split(',')]
+                            before = text[:mm.start()].count(PH)
+                            exprs, k = [], before
+                            for a in args:
+                                if a == PH:
+                                    exprs.append(ph[k])
+                                    k += 1
+                                else:
+                                    k += a.count(PH)
+                                    exprs.append(None)
+                            fwd = forward.get(macro) if macro != '__PYX_MARK_ERR_POS' else list(range(len(mparams)))
+                            if fwd is None:
+                                raise AnalysisError('%s is emitted but its definition was not found' % macro)
+                            fi = fwd.index(file_param) if file_param in fwd else None
+                            li = fwd.index(line_param) if line_param in fwd else None
+                            nsites += 1
+                            qual = '%s.%s:%s' % (c.qual, fn.name, macro)
+                            for role, idx in (('file', fi), ('line', li)):
+                                key = '%s:%s-arg' % (qual, role)
+                                r.inst(key, sample='%s emits %s(%s)' % (fn.name, macro, ', '.join(node_src(e, 30) if e is not None else '?' for e in exprs)))
+                                e = exprs[idx] if idx is not None and idx < len(exprs) else None
+                                e = deref(e, env) if e is not None else None
+                                if role == 'file':
+                                    ok = isinstance(e, ast.Call) and isinstance(e.func, ast.Attribute) and e.func.attr == 'lookup_filename' and len(e.args) == 1 and \
+                                        isinstance(e.args[0], ast.Subscript) and isinstance(e.args[0].slice, ast.Constant) and e.args[0].slice.value == FILE_I
+                                    base = node_src(e.args[0].value) if ok else None
+                                    want = 'lookup_filename(pos[%d])' % FILE_I
+                                else:
+                                    ok = isinstance(e, ast.Subscript) and isinstance(e.slice, ast.Constant) and e.slice.value == LINE_I
+                                    base = node_src(e.value) if ok else None
+                                    want = 'pos[%d]' % LINE_I
+                                if not ok:
+                                    r.violate(key, m.rel, n.lineno,
+                                              '%s.%s emits %s with `%s` in the position of the %s (macro parameter %r); it must be %s - a position is (source, line, column) = '
+                                              'components (%d, %d, _) as the scanner builds it: the traceback of every error raised through this macro names the wrong %s' % (
+                                                  c.qual, fn.name, macro, node_src(e) if e is not None else argtext, 'file-table index' if role == 'file' else 'source line',
+                                                  mparams[file_param if role == 'file' else line_param], want, FILE_I, LINE_I, 'file' if role == 'file' else 'line'))
+    if nsites < 2 and file_param is not None and line_param is not None:
+        raise AnalysisError('fewer than 2 emission sites of __PYX_ERR / __PYX_MARK_ERR_POS found')
+    if file_param is None or line_param is None:
+        r.info('emission sites not compared: the macro definition does not determine which parameter is the file index / the line')
+    # ---- C. the C side: parameter roles of the traceback helpers, and the call sites
+    section_funcs = {nm for nm, ds in ctx.cat.decls.items() for d in ds if d.kind == 'func' and d.file == 'Exceptions.c'}
+    crel = 'Cython/Utility/Exceptions.c'
+    helper_roles = {}
+    for helper in ('__Pyx_AddTraceback', '__Pyx_WriteUnraisable'):
+        vs = c_param_roles(ctx, helper, section_funcs)
+        if not vs:
+            raise AnalysisError('%s: no definition found in the utility code' % helper)
+        merged = []
+        for roles, d in vs:
+            merged.append((roles, d))
+            for i, rs in roles.items():
+                key = 'Exceptions.%s:param%d%s' % (helper, i, (':' + d.conds[-1].split(';')[-1].strip()) if d.conds else '')
+                r.inst(key, sample='%s parameter %d (%s) is used as %s' % (helper, i, d.params[i], sorted(rs) or 'nothing position-related'))
+                if len(rs & {'line', 'cline', 'file', 'func'}) > 1:
+                    r.violate('Exceptions.%s:param%d:role-conflict' % (helper, i), crel, d.line,
+                              '%s uses its parameter `%s` in the roles %s: e.g. the C line number becomes the frame line / the function name the file name of the traceback entry' % (
+                                  helper, d.params[i], sorted(rs)))
+        helper_roles[helper] = merged
+    code_cls = ix.cls('Code', 'CCodeWriter')
+    for mname, fn in code_cls.methods.items():
+        if not any(isinstance(k, ast.Constant) and isinstance(k.value, str) and any(h + '(' in k.value for h in helper_roles) for k in ast.walk(fn)):
+            continue
+        for n, text, ph in emitted_texts(ctx, code_cls, fn):
+            for helper in helper_roles:
+                mm = re.search(re.escape(helper) + r'\(([^()]*)\)', text)
+                if not mm:
+                    continue
+                args = [a.strip() for a in mm.group(1).split(',')]
+                k = text[:mm.start()].count(PH)
+                env = _unpack_env(fn)
+                for i, a in enumerate(args):
+                    e = None
+                    if a == PH:
+                        e = deref(ph[k], env)
+                        k += 1
+                    else:
+                        k += a.count(PH)
+                        cn = [nm for nm, v in naming.items() if v == a]
+                        e = ast.Attribute(value=ast.Name(id='Naming', ctx=ast.Load()), attr=cn[0], ctx=ast.Load()) if cn and a in pos_cnames else None
+                    if e is None:
+                        continue
+                    pr = _python_arg_role(e, cname_roles, naming) - {'none'}
+                    key = 'Code.CCodeWriter.%s:%s:arg%d' % (mname, helper, i)
+                    if pr:
+                        r.inst(key, sample='%s passes %s (%s) to parameter %d, used as %s' % (
+                            mname, node_src(e, 40), sorted(pr), i, [sorted(roles.get(i, ())) or 'unused' for roles, _d in helper_roles[helper]]))
+                    for roles, d in helper_roles[helper]:       # every definition variant (#if branch) of the helper on its own
+                        cr = roles.get(i, set())
+                        if pr and cr and not (pr <= cr):
+                            r.violate(key, 'Cython/Compiler/Code.py', n.lineno,
+                                      '%s hands %s, which __PYX_MARK_ERR_POS fills with the %s, to parameter %d of %s, which the C code%s uses as the %s: the traceback entry shows %s' % (
+                                          mname, node_src(e, 60), '/'.join(sorted(pr)), i, helper, (' (variant `%s`)' % d.conds[-1].split(';')[-1].strip()) if d.conds else '',
+                                          '/'.join(sorted(cr)),
+                                          'the C line number as source line (or the reverse)' if {'line', 'cline'} & (pr | cr) else 'file and function name swapped'))
+                            break
+    return r
+
+
+# ---------------------------------------------------------------------------------------------------------------- TBKEY
+def _cache_key_sites(ctx):
+    out = []
+    for d in [x for x in ctx.cat.decls.get('__Pyx_AddTraceback', []) if x.kind == 'func']:
+        body = _cutil.strip_c_comments(d.body or '')
+        locals_ = dict((m.group(1), m.group(2).strip()) for m in re.finditer(r'\bint\s+([A-Za-z_]\w*)\s*=\s*([^;]+);', body))
+        finds, inserts = [], []
+        for callee, args, off in _c_calls(body):
+            if callee.endswith('code_object_cache_find') and args:
+                finds.append((args[0], off))
+            elif callee.endswith('code_object_cache_insert') and args:
+                inserts.append((args[0], off))
+        out.append((d, body, locals_, finds, inserts))
+    return out
+
+
+def _norm_key(k, locals_):
+    k = locals_.get(k.strip(), k)
+    return re.sub(r'\s+', '', k)
+
+
+def rule_tbkey(ctx, complete=False):
+    rid = 'C44-TBKEY'
+    r = Rule(rid, 'the code-object cache of __Pyx_AddTraceback is searched and filled under the same key expression in every variant' +
+             ('; every input of the cached code object that is not part of the key is compared on a hit' if complete else ''), floor=2)
+    crel = 'Cython/Utility/Exceptions.c'
+    sites = _cache_key_sites(ctx)
+    if not sites:
+        raise AnalysisError('__Pyx_AddTraceback: no definition found')
+    for d, body, locals_, finds, inserts in sites:
+        tag = d.conds[-1].split(';')[-1].strip() if d.conds else 'default'
+        key = 'Exceptions.__Pyx_AddTraceback:cache-key:%s' % (tag or 'else')
+        if not finds or not inserts:
+            r.info('variant %s of __Pyx_AddTraceback does not use the code object cache' % tag)
+            continue
+        fk, ik = {_norm_key(k, locals_) for k, _ in finds}, {_norm_key(k, locals_) for k, _ in inserts}
+        r.inst(key, sample='find(%s) / insert(%s)' % (sorted(fk), sorted(ik)))
+        if fk != ik:
+            r.violate(key, crel, d.line,
+                      '__Pyx_AddTraceback looks the code object up under %s but stores it under %s: a look-up can return the code object made for another line / C line (wrong '
+                      'function name and first line in the traceback entry) or never hit' % (sorted(fk), sorted(ik)))
+        if complete:
+            # inputs of the cached value: the parameters handed to the call that creates the code object
+            pnames = [re.findall(r'[A-Za-z_]\w*', p)[-1] for p in d.params]
+            key_ids = set(re.findall(r'[A-Za-z_]\w*', ' '.join(fk)))
+            first_find = min(off for _, off in finds)
+            miss = re.search(r'if\s*\(\s*!\s*\w+\s*\)\s*\{', body[first_find:])
+            hit_region = body[first_find:first_find + miss.start()] if miss else ''
+            region_ids = set(re.findall(r'[A-Za-z_]\w*', hit_region.split(';', 1)[1] if ';' in hit_region else ''))
+            used = {p for p in pnames if re.search(r'\b%s\b' % re.escape(p), body[first_find:])}
+            uncovered = sorted(p for p in used if p not in key_ids and p not in region_ids)
+            k2 = 'Exceptions.__Pyx_AddTraceback:cache-key:inputs-not-in-key' + ('' if tag in ('', 'default') else ':' + tag)
+            r.inst(k2, sample='inputs %s, key over %s, compared on a hit: %s' % (sorted(used), sorted(key_ids & set(pnames)), sorted(region_ids & set(pnames))))
+            if uncovered:
+                r.violate('Exceptions.__Pyx_AddTraceback:cache-key:inputs-not-in-key', crel, d.line,
+                          'the cached code object is built from (%s) but the cache key is %s and a hit is reused without comparing %s: the second function that raises on a line '
+                          'number already seen (a lambda and its enclosing function, an included file, an inline function of a cimported .pxd) gets the traceback entry of the first '
+                          'one - wrong function name and file' % (', '.join(sorted(used)), sorted(fk), uncovered))
+    r.positive_control(_tbkey_control(), 'cache filled under a key other than the one searched')
+    return r
+
+
+def _tbkey_control():
+    body = 'x = $global_code_object_cache_find(c_line ? -c_line : py_line); if (!x) { x = make(); $global_code_object_cache_insert(py_line, x); }'
+    calls = _c_calls(body)
+    f = {_norm_key(a[0], {}) for c, a, _ in calls if c.endswith('cache_find')}
+    i = {_norm_key(a[0], {}) for c, a, _ in calls if c.endswith('cache_insert')}
+    return bool(f) and bool(i) and f != i
+
+
+def rule_tbkey_complete(ctx):      # pending finding (FINDING_2)
+    return rule_tbkey(ctx, complete=True)
+
+
+# ---------------------------------------------------------------------------------------------------------------- FIRST
+import codecs as _codecs
+
+
+def _driver_facts(ctx, tree=None):
+    """facts about the line-table driver (the function that loops over the positions and calls the per-entry encoder)"""
+    rel = 'Cython/Compiler/LineTable.py'
+    tree = tree if tree is not None else ctx.parse(rel)
+    fns = {n.name: n for n in tree.body if isinstance(n, ast.FunctionDef)}
+    drivers = []
+    for fn in fns.values():
+        for loop in [n for n in walk_no_nested(fn) if isinstance(n, ast.For) and isinstance(n.target, ast.Name)]:
+            for c in ast.walk(loop):
+                if isinstance(c, ast.Call) and isinstance(c.func, ast.Name) and c.func.id in fns and any(isinstance(a, ast.Name) and a.id == loop.target.id for a in c.args):
+                    drivers.append((fn, loop, c))
+    if len(drivers) != 1:
+        raise AnalysisError('LineTable: expected exactly one loop that hands each position to a per-entry encoder, found %d' % len(drivers))
+    fn, loop, call = drivers[0]
+    enc = fns[call.func.id]
+    # the encoder parameter that is subtracted from the start line is the base line
+    start = None
+    for n in walk_no_nested(enc):
+        if isinstance(n, ast.Assign) and isinstance(n.targets[0], ast.Tuple) and len(n.targets[0].elts) == 4 and isinstance(n.value, ast.Name):
+            start = n.targets[0].elts[0].id
+    eparams = [a.arg for a in enc.args.args]
+    base_idx = None
+    for n in ast.walk(enc):
+        if isinstance(n, ast.BinOp) and isinstance(n.op, ast.Sub) and isinstance(n.left, ast.Name) and n.left.id == start and isinstance(n.right, ast.Name) and n.right.id in eparams:
+            base_idx = eparams.index(n.right.id)
+    if start is None or base_idx is None:
+        raise AnalysisError('LineTable.%s: the base-line parameter (subtracted from the start line) was not found' % enc.name)
+    return rel, fn, loop, call, enc, base_idx
+
+
+def rule_first(ctx):
+    r = Rule('C44-FIRST', 'line-table base line: the driver passes a variable as base line, assigns the encoder\'s result back to it in the loop and initialises it from its own '
+             'first-line parameter; CodeObjectNode builds the table with the very expression it emits as co_firstlineno, that expression is the LINE component of the node '
+             'position, and the table string is converted to bytes with a codec that maps chr(n) to byte n', floor=6)
+    FILE_I, LINE_I = scanner_pos_indices(ctx)
+    rel, fn, first_param, params, bvar = driver_obligations(ctx, r)
+    pc = ast.parse("def enc(out, p, last):\n    a, b, c, d = p\n    out.append(a - last)\n    return a\n"
+                   "def build(positions, first):\n    out = []\n    last = 0\n    for p in positions:\n        enc(out, p, last)\n    return out\n")
+    r2 = Rule('pc', 'pc', floor=0)
+    driver_obligations(ctx, r2, pc)
+    r.positive_control({f.construct.split(':')[-1] for f in r2.findings} == {'feedback', 'initial-base'}, 'driver without feedback that starts from a constant')
+    code_object_obligations(ctx, r, fn, first_param, params, bvar, LINE_I)
+    return r
+
+
+def driver_obligations(ctx, r, tree=None):
+    rel, fn, loop, call, enc, base_idx = _driver_facts(ctx, tree)
+    qual = 'LineTable.%s' % fn.name
+    first_param = None
+    # (1) feedback
+    base_arg = call.args[base_idx] if base_idx < len(call.args) else None
+    r.inst(qual + ':base-variable', sample='%s passes %s as base line' % (fn.name, node_src(base_arg) if base_arg is not None else None))
+    params = [a.arg for a in fn.args.args]
+    if not isinstance(base_arg, ast.Name):
+        r.violate(qual + ':base-variable', rel, call.lineno, '%s hands %s the base line `%s`, which is not a variable it updates: every line delta after the first entry is wrong' % (
+            fn.name, enc.name, node_src(base_arg) if base_arg is not None else '?'))
+        bvar = None
+    else:
+        bvar = base_arg.id
+        fed = any(isinstance(n, (ast.Assign, ast.AnnAssign)) and any(x is call for x in ast.walk(n.value)) and isinstance(n.value, ast.Call) and
+                  any(isinstance(t, ast.Name) and t.id == bvar for t in (n.targets if isinstance(n, ast.Assign) else [n.target])) for n in ast.walk(loop) if isinstance(n, (ast.Assign, ast.AnnAssign)) and n.value is not None)
+        r.inst(qual + ':feedback', sample='%s = %s(...) inside the loop: %s' % (bvar, enc.name, fed))
+        if not fed:
+            r.violate(qual + ':feedback', rel, call.lineno,
+                      '%s does not assign the result of %s (the start line of the entry just written) back to `%s`: every entry is encoded relative to the first line instead of '
+                      'the previous entry, CPython decodes line numbers that run away' % (fn.name, enc.name, bvar))
+        # (2) initial value = a parameter of the driver
+        inits = [n for n in fn.body if isinstance(n, (ast.Assign, ast.AnnAssign)) and n.value is not None and
+                 any(isinstance(t, ast.Name) and t.id == bvar for t in (n.targets if isinstance(n, ast.Assign) else [n.target]))]
+        r.inst(qual + ':initial-base', sample='%s starts as %s' % (bvar, node_src(inits[0].value) if inits else (bvar if bvar in params else None)))
+        first_param = None
+        if bvar in params and not inits:
+            first_param = bvar
+        elif inits and isinstance(inits[0].value, ast.Name) and inits[0].value.id in params:
+            first_param = inits[0].value.id
+        if first_param is None:
+            r.violate(qual + ':initial-base', rel, (inits[0] if inits else fn).lineno,
+                      'the base line of the first entry is %s, not the first-line parameter of %s: CPython adds the first delta to co_firstlineno, so all decoded lines are '
+                      'shifted by the function\'s first line' % (node_src(inits[0].value) if inits else 'undefined', fn.name))
+    return rel, fn, first_param, params, bvar
+
+
+def code_object_obligations(ctx, r, fn, first_param, params, bvar, LINE_I):
+    # (3) CodeObjectNode: same expression for the table base and co_firstlineno
+    ix = ctx.index
+    users = []
+    for ms in MODULES:
+        try:
+            m = ix.mod(ms)
+        except AnalysisError:
+            continue
+        text = ctx.read(m.rel)
+        if fn.name + '(' not in text:
+            continue
+        lines = [i + 1 for i, l in enumerate(text.split('\n')) if fn.name + '(' in l]
+        for c in m.classes.values():
+            for meth in c.methods.values():
+                if not any(meth.lineno <= ln <= (meth.end_lineno or meth.lineno) for ln in lines):
+                    continue
+                for n in walk_no_nested(meth):
+                    if isinstance(n, ast.Call) and isinstance(n.func, ast.Name) and n.func.id == fn.name:
+                        users.append((m, c, meth, n))
+    if not users:
+        raise AnalysisError('no caller of LineTable.%s found in the compiler' % fn.name)
+    fp_index = params.index(first_param) if (bvar is not None and first_param in params) else None
+    for m, c, meth, n in users:
+        env = _unpack_env(meth)
+        q = '%s.%s' % (c.qual, meth.name)
+        if fp_index is not None:
+            a = n.args[fp_index] if fp_index < len(n.args) else next((k.value for k in n.keywords if k.arg == first_param), None)
+            # the value emitted as first line of the code object: the `first_line` field of the descriptor initialiser
+            field_expr = None
+            for node, text, ph in emitted_texts(ctx, c, meth):
+                mm = re.search(r'\bdescr\s*=\s*\{([^}]*)\}', text)
+                if mm:
+                    fields = [x.strip() for x in mm.group(1).split(',')]
+                    k0 = text[:mm.start(1)].count(PH)
+                    order = descriptor_fields(ctx)
+                    if 'first_line' not in order or len(fields) != len(order):
+                        raise AnalysisError('%s: the code object descriptor initialiser has %d fields, the struct %d' % (q, len(fields), len(order)))
+                    fi = order.index('first_line')
+                    if fields[fi] == PH:
+                        field_expr = ph[k0 + sum(f.count(PH) for f in fields[:fi])]
+            r.inst(q + ':table-base=co_firstlineno', sample='%s(..., %s) / descr.first_line = %s' % (fn.name, node_src(a) if a is not None else None, node_src(field_expr) if field_expr is not None else None))
+            if field_expr is None:
+                raise AnalysisError('%s: the first_line field of the emitted code object descriptor was not found' % q)
+            da, df = deref(a, env) if a is not None else None, deref(field_expr, env)
+            if da is None or ast.dump(da) != ast.dump(df):
+                r.violate(q + ':table-base=co_firstlineno', m.rel, n.lineno,
+                          '%s builds the line table relative to `%s` but creates the code object with co_firstlineno = `%s`: CPython adds the line deltas to co_firstlineno, so every '
+                          'decoded line is off by the difference' % (q, node_src(a) if a is not None else '?', node_src(field_expr)))
+            r.inst(q + ':first-line=pos[LINE]', sample='first line = %s' % node_src(df))
+            if not (isinstance(df, ast.Subscript) and isinstance(df.slice, ast.Constant) and df.slice.value == LINE_I and 'pos' in node_src(df.value)):
+                r.violate(q + ':first-line=pos[LINE]', m.rel, n.lineno,
+                          '%s takes the first line of the code object from `%s`; the line number of a node position is component %d (source, line, column)' % (q, node_src(df), LINE_I))
+        else:
+            r.inst(q + ':table-base=co_firstlineno', sample='not compared: the driver has no first-line parameter', nontrivial=False)
+            r.inst(q + ':first-line=pos[LINE]', sample='not compared', nontrivial=False)
+        # (4) codec of the table string
+        par = None
+        for x in walk_no_nested(meth):
+            if isinstance(x, ast.Call) and isinstance(x.func, ast.Attribute) and x.func.attr == 'encode' and any(y is n for y in ast.walk(x.func.value)):
+                par = x
+        r.inst(q + ':table-codec', sample=node_src(par, 90) if par is not None else 'no encode() on the table')
+        if par is not None:
+            codec = par.args[0] if par.args else next((k.value for k in par.keywords if k.arg == 'encoding'), None)
+            name = codec.value if isinstance(codec, ast.Constant) and isinstance(codec.value, str) else None
+            try:
+                norm = _codecs.lookup(name).name if name else None
+            except LookupError:
+                norm = None
+            if norm != 'iso8859-1':
+                r.violate(q + ':table-codec', m.rel, par.lineno,
+                          'the line table (a str of chr(0..255) characters, every entry starts with a character >= 128) is converted with the codec %r: only latin-1 maps chr(n) '
+                          'to the single byte n, any other codec changes the length and the values of the table bytes' % (name,))
+
+
+def descriptor_fields(ctx):
+    """field names of the __Pyx_PyCode_New_function_description struct, in declaration order (read from the typedef the code generator emits)"""
+    def build():
+        txt = ctx.read('Cython/Compiler/Code.py')
+        m = re.search(r'typedef struct \{\{(.*?)\}\}\s*__Pyx_PyCode_New_function_description', txt, re.S)
+        if not m:
+            raise AnalysisError('Code.py: typedef of __Pyx_PyCode_New_function_description not found')
+        return re.findall(r'unsigned int\s+(\w+)\s*:', m.group(1))
+    return ctx.memo('sC44.descr_fields', build)
+
+
+# ---------------------------------------------------------------------------------------------------------------- ORDER
+def rule_order(ctx):
+    r = Rule('C44-ORDER', 'the function that fills node_positions hands the encoder a list in ascending (line, column) order - sorted with the line component as primary key, every '
+             'reversal accounted for - and numbers the offsets of node_positions_to_offset over a list in the same order', floor=3)
+    FILE_I, LINE_I = scanner_pos_indices(ctx)
+    ix = ctx.index
+    sites = []
+    for mname in ('ParseTreeTransforms', 'Nodes', 'ExprNodes', 'Optimize', 'FlowControl'):
+        try:
+            m = ix.mod(mname)
+        except AnalysisError:
+            continue
+        if 'node_positions' not in ctx.read(m.rel):
+            continue
+        for c in m.classes.values():
+            for fn in c.methods.values():
+                if any(isinstance(n, ast.Assign) and any(isinstance(t, ast.Attribute) and t.attr == 'node_positions' for t in n.targets) for n in walk_no_nested(fn)):
+                    sites.append((m, c, fn))
+    if not sites:
+        raise AnalysisError('no function assigns node_positions')
+    for m, c, fn in sites:
+        order_obligations(r, '%s.%s' % (c.qual, fn.name), m.rel, fn, LINE_I)
+    pc = ast.parse("def build(self, f):\n    positions = sorted(self.p.pop(), key=itemgetter(1, 2), reverse=True)\n    ranges = []\n    for _, l, c in positions:\n        ranges.append((l, l, c, c + 1))\n"
+                   "    ranges.reverse()\n    f.node_positions = ranges\n    f.local_scope.node_positions_to_offset = {p: i for i, p in enumerate(positions)}\n").body[0]
+    r2 = Rule('pc', 'pc', floor=0)
+    order_obligations(r2, 'pc', 'pc', pc, 1)
+    r.positive_control([f.construct.split(':')[-1] for f in r2.findings] == ['offsets-same-order'], 'offsets numbered over the descending list')
+    return r
+
+
+def order_obligations(r, q, rel, fn, LINE_I):
+    if True:
+        m = type('M', (), {'rel': rel})
+        order = {}          # list variable -> 'asc' | 'desc' | None
+
+        def flip(o):
+            return {'asc': 'desc', 'desc': 'asc'}.get(o)
+
+        def expr_order(e):
+            if isinstance(e, ast.Name):
+                return order.get(e.id)
+            if isinstance(e, ast.Call) and isinstance(e.func, ast.Name) and e.func.id == 'sorted':
+                rev = next((k.value for k in e.keywords if k.arg == 'reverse'), None)
+                key = next((k.value for k in e.keywords if k.arg == 'key'), None)
+                primary = None
+                if isinstance(key, ast.Call) and isinstance(key.func, ast.Name) and key.func.id == 'itemgetter' and key.args and isinstance(key.args[0], ast.Constant):
+                    primary = key.args[0].value
+                elif isinstance(key, ast.Lambda) and isinstance(key.body, ast.Tuple) and key.body.elts and isinstance(key.body.elts[0], ast.Subscript) and isinstance(key.body.elts[0].slice, ast.Constant):
+                    primary = key.body.elts[0].slice.value
+                r.inst(q + ':sort-key', sample='sorted(..., key=%s): primary component %r' % (node_src(key) if key is not None else None, primary))
+                if primary != LINE_I:
+                    r.violate(q + ':sort-key', m.rel, e.lineno, '%s sorts the positions with primary key component %r; the line number of a position is component %d: the list handed to the '
+                              'line-table encoder is not start-sorted (negative line deltas, the encoder\'s input contract is broken)' % (q, primary, LINE_I))
+                if rev is None or (isinstance(rev, ast.Constant) and rev.value is False):
+                    return 'asc'
+                if isinstance(rev, ast.Constant) and rev.value is True:
+                    return 'desc'
+                return None
+            if isinstance(e, ast.Subscript) and isinstance(e.slice, ast.Slice) and e.slice.lower is None and e.slice.upper is None and \
+                    isinstance(e.slice.step, ast.UnaryOp) and isinstance(e.slice.step.op, ast.USub) and isinstance(e.slice.step.operand, ast.Constant) and e.slice.step.operand.value == 1:
+                return flip(expr_order(e.value))
+            if isinstance(e, ast.Call) and isinstance(e.func, ast.Name) and e.func.id in ('list', 'tuple') and len(e.args) == 1:
+                a = e.args[0]
+                if isinstance(a, ast.Call) and isinstance(a.func, ast.Name) and a.func.id == 'reversed' and len(a.args) == 1:
+                    return flip(expr_order(a.args[0]))
+                return expr_order(a)
+            if isinstance(e, (ast.List,)) and not e.elts:
+                return 'empty'
+            return None
+
+        def walk(stmts):
+            for s in stmts:
+                if isinstance(s, (ast.Assign, ast.AnnAssign)) and s.value is not None:
+                    tgts = s.targets if isinstance(s, ast.Assign) else [s.target]
+                    for t in tgts:
+                        if isinstance(t, ast.Name):
+                            order[t.id] = expr_order(s.value)
+                        elif isinstance(t, ast.Attribute) and t.attr == 'node_positions':
+                            o = expr_order(s.value)
+                            key = q + ':node_positions-ascending'
+                            r.inst(key, sample='node_positions = %s (%s)' % (node_src(s.value), o))
+                            order['<table>'] = o
+                            if o != 'asc':
+                                r.violate(key, m.rel, s.lineno,
+                                          '%s stores `%s` as node_positions in %s order; build_line_table requires a start-sorted list (it encodes start - previous start as an unsigned '
+                                          'delta): the position table decodes to garbage' % (q, node_src(s.value), {'desc': 'descending', None: 'an unknown', 'empty': 'no'}.get(o, o)))
+                        elif isinstance(t, ast.Attribute) and t.attr == 'node_positions_to_offset':
+                            v = s.value
+                            src = None
+                            if isinstance(v, ast.DictComp) and len(v.generators) == 1:
+                                it = v.generators[0].iter
+                                if isinstance(it, ast.Call) and isinstance(it.func, ast.Name) and it.func.id == 'enumerate' and it.args:
+                                    src = expr_order(it.args[0])
+                                    tgt = v.generators[0].target
+                                    # the value must be the counter, the key the element
+                                    if isinstance(tgt, ast.Tuple) and len(tgt.elts) == 2 and isinstance(tgt.elts[0], ast.Name) and not (isinstance(v.value, ast.Name) and v.value.id == tgt.elts[0].id):
+                                        src = None
+                            key = q + ':offsets-same-order'
+                            r.inst(key, sample='offsets enumerate a list in %s order, the table is in %s order' % (src, order.get('<table>')))
+                            if src is None or order.get('<table>') is None:
+                                r.info('%s: construction of node_positions_to_offset not modelled (%s)' % (q, node_src(v, 80)))
+                            elif src != order.get('<table>'):
+                                r.violate(key, m.rel, s.lineno,
+                                          '%s numbers the offsets over the positions in %s order while node_positions (the line table entries) are in %s order: offset i, used by trace '
+                                          'and monitoring events and co_positions(), names the entry of another node' % (q, src, order.get('<table>')))
+                elif isinstance(s, ast.Expr) and isinstance(s.value, ast.Call) and isinstance(s.value.func, ast.Attribute) and isinstance(s.value.func.value, ast.Name):
+                    nm, meth = s.value.func.value.id, s.value.func.attr
+                    if meth == 'reverse':
+                        order[nm] = flip(order.get(nm))
+                    elif meth == 'sort':
+                        rev = next((k.value for k in s.value.keywords if k.arg == 'reverse'), None)
+                        order[nm] = 'desc' if isinstance(rev, ast.Constant) and rev.value is True else 'asc' if rev is None else None
+                elif isinstance(s, ast.For):
+                    src = expr_order(s.iter)
+                    for x in ast.walk(s):
+                        if isinstance(x, ast.Call) and isinstance(x.func, ast.Attribute) and x.func.attr == 'append' and isinstance(x.func.value, ast.Name):
+                            if order.get(x.func.value.id) in ('empty', src):
+                                order[x.func.value.id] = src
+                            else:
+                                order[x.func.value.id] = None
+                        elif isinstance(x, ast.Call) and isinstance(x.func, ast.Attribute) and x.func.attr == 'insert' and isinstance(x.func.value, ast.Name) and x.args and \
+                                isinstance(x.args[0], ast.Constant) and x.args[0].value == 0:
+                            order[x.func.value.id] = flip(src) if order.get(x.func.value.id) in ('empty', flip(src)) else None
+                elif isinstance(s, (ast.If, ast.With, ast.Try)):
+                    walk(s.body)
+        walk(fn.body)
+        if '<table>' not in order:
+            raise AnalysisError('%s: assignment of node_positions not reached by the order analysis' % q)
+
+
+# ---------------------------------------------------------------------------------------------------------------- FILETAB
+def rule_filetab(ctx):
+    from .sC50 import PyEval, EvalError, PyRaise, Func, Mod
+    import types as _types
+    import itertools as _it
+    r = Rule('C44-FILETAB', 'the file-table index that __PYX_ERR carries names the right file: GlobalState.lookup_filename (evaluated by the checker on every sequence of new / repeated '
+             'source descriptors up to length 4) returns the position at which the descriptor\'s file sits in filename_list, the same index for the same file, and the module\'s '
+             'file table is emitted from filename_list in list order', floor=20)
+    ix = ctx.index
+    gs = ix.cls('Code', 'GlobalState')
+    found = ix.find_method(gs, 'lookup_filename')
+    if found is None:
+        raise AnalysisError('Code.GlobalState.lookup_filename vanished')
+    owner, fn = found
+    NSx = _types.SimpleNamespace
+
+    def run_seq(fnode, seq):
+        ev = PyEval(max_steps=20000)
+        f = Func(fnode, None, Mod('m'))
+        me = NSx(filename_table={}, filename_list=[])
+        descs = {k: NSx(key=k, get_filenametable_entry=(lambda k=k: 'entry-' + k)) for k in 'abc'}
+        out = []
+        for k in seq:
+            idx = ev.call(f, [me, descs[k]])
+            ok = isinstance(idx, int) and 0 <= idx < len(me.filename_list) and me.filename_list[idx].key == k
+            out.append((k, idx, ok))
+        return out
+    seqs = [s for n in (1, 2, 3, 4) for s in _it.product('abc', repeat=n) if list(s) == [c for c in s] and s[0] == 'a' and all(
+        ch <= chr(ord(max(s[:i] or 'a')) + 1) for i, ch in enumerate(s))]
+    rel = 'Cython/Compiler/Code.py'
+    bad = None
+    for s in seqs:
+        key = 'Code.GlobalState.lookup_filename:seq:%s' % ''.join(s)
+        try:
+            res = run_seq(fn, s)
+        except EvalError as e:
+            raise AnalysisError('GlobalState.lookup_filename: outside the fragment the evaluator models (%s)' % e)
+        except PyRaise as e:
+            res = [(s[0], 'raises %r' % (e.exc,), False)]
+        r.inst(key, sample='%s -> %s' % (''.join(s), [i for _, i, _ in res]))
+        first = {}
+        for k, idx, ok in res:
+            stable = first.setdefault(k, idx) == idx
+            if (not ok or not stable) and bad is None:
+                bad = (s, k, idx, res)
+    if bad is not None:
+        s, k, idx, res = bad
+        r.violate('Code.GlobalState.lookup_filename:index', rel, fn.lineno,
+                  'for the look-up sequence %s of source files, lookup_filename returns %r for file %r, which is not the position of that file in filename_list (indices %s): '
+                  '__PYX_ERR(index, line, ...) makes the traceback entry name another source file' % (''.join(s), idx, k, [i for _, i, _ in res]))
+    pc = ast.parse("def lookup_filename(self, source_desc):\n    entry = source_desc.get_filenametable_entry()\n    try:\n        index = self.filename_table[entry]\n    except KeyError:\n"
+                   "        self.filename_list.append(source_desc)\n        index = len(self.filename_list)\n        self.filename_table[entry] = index\n    return index\n").body[0]
+    r.positive_control(not all(ok for _, _, ok in run_seq(pc, ('a', 'b'))), 'index taken after the append')
+    # emission of the table
+    mn = ix.mod('ModuleNode')
+    naming = Res(ctx, gs, fn).naming
+    table = naming.get('filetable_cname')
+    emit = None
+    for c in mn.classes.values():
+        for m in c.methods.values():
+            if any(isinstance(k, ast.Attribute) and isinstance(k.value, ast.Name) and k.value.id == 'Naming' and k.attr == 'filetable_cname' for k in ast.walk(m)) and \
+                    any(isinstance(k, ast.For) for k in walk_no_nested(m)):
+                emit = (c, m)
+    if emit is None:
+        raise AnalysisError('ModuleNode: the method that emits the file table (%s) was not found' % table)
+    c, m = emit
+    loops = [k for k in walk_no_nested(m) if isinstance(k, ast.For)]
+    key = 'ModuleNode.%s.%s:table-order' % (c.name, m.name)
+    r.inst(key, sample='%s iterates %s' % (m.name, node_src(loops[0].iter)))
+    it = loops[0].iter
+    while isinstance(it, ast.Call) and isinstance(it.func, ast.Name) and it.func.id in ('enumerate', 'list', 'tuple', 'iter') and len(it.args) == 1 and not it.keywords:
+        it = it.args[0]         # order-preserving wrappers
+    if not (isinstance(it, ast.Attribute) and it.attr == 'filename_list'):
+        r.violate(key, mn.rel, loops[0].lineno,
+                  '%s emits the entries of %s while iterating `%s` instead of filename_list itself: entry i of the C table is no longer the file whose index lookup_filename handed '
+                  'out as i' % (m.name, table, node_src(it)))
     return r
